@@ -381,10 +381,16 @@ class IntegrityChecker(object):
                             level="violation",
                             category="feature size"))
             else:
-                if len(self.ds[feat]) != lends:
+                lenfeat = len(self.ds[feat])
+                if feat == "contour" and self.ds.format == "hdf5":
+                    # The length of the contour feature is taken from the
+                    # metadata for performance reasons. Here, we have to
+                    # look at the actual number of contours stored.
+                    lenfeat = len(self.ds.h5file["events"]["contour"])
+                if lenfeat != lends:
                     cues.append(ICue(
                         msg=f"Features: wrong event count: '{feat}' "
-                            + f"({len(self.ds[feat])} of {lends})",
+                            + f"({lenfeat} of {lends})",
                         level="violation",
                         category="feature size"))
         return cues
